@@ -177,3 +177,19 @@ package v2
 //@ func (Service).PutRequestToInfo
 //@   property C28
 //@   ensures [tombstone_put_is_delete_unless_replication] err == nil ==> res0.Operation == ite(op == acl.OpObjectDelete && res0.RequestRole == acl.RoleContainer && reqTTL() == 1, acl.OpObjectPut, op)
+
+// The verdict cache is shared with the object validator (internal/crypto.AuthenticateObject
+// stores a V1 token there after checking its signature only, under the same key: the hash of
+// the token's bytes). A cache hit therefore proves authenticity at most, never that the token
+// is within its lifetime: the lifetime has to be checked on the call itself, outside the
+// cached closure.
+//@ ghost pred v1LifetimeCheckedOnThisCall() bool
+//@ callrule c30_v1_lifetime_check in (Service).VerifySessionV1TokenMessage
+//@   property C30
+//@   callee *Object).ExpiredAt, *Object).ValidAt, (session.Object).ExpiredAt, (session.Object).ValidAt
+//@   pureeffect
+//@   optional
+//@   defines v1LifetimeCheckedOnThisCall()
+//@ func (Service).VerifySessionV1TokenMessage
+//@   property C30
+//@   ensures [lifetime_checked_on_every_call_not_taken_from_the_shared_cache] err == nil ==> v1LifetimeCheckedOnThisCall()
